@@ -162,3 +162,32 @@ for mode in ('fwd', 'rev'):
              modifies=[], name=DM + '::DenseMatrix._prod[%s]' % mode, inline={'transpose'}, native=_native_prod,
              canaries=[('reverse product without the transpose', ('return self.transpose() @ in_vec', 'return self._matrix @ in_vec'), 'shape')] if mode == 'rev' else
              [('mask ignored in forward mode', ('return self._matrix @ self._get_masked_arr(in_vec, mask)', 'return self._matrix @ in_vec'), 'post')])
+
+
+# ---- CSRMatrix / CSCMatrix._update_from_submat: accumulation of one sub-jacobian's triplet data ----------------------
+# The lexsort/cumsum index map built by _build (COO position -> slot in the compressed data array) is BOUNDED-tier
+# material; given the map, the update itself is proved: every compressed slot j gains  factor * sum_k [map[a+k] == j] d[k]
+# (d = the sub-jacobian's triplet data), every other slot is unchanged, and the sub-jacobian's own stored data — which
+# get_as_coo_data may hand out without copying — is NOT modified.  `_has_within_subjac_duplicates` selects np.add.at
+# (duplicates within the slice) or a fancy += (slice duplicate-free: that is what the flag means, stated as precondition).
+for _cls, _file, _map in (('CSRMatrix', 'openmdao/matrices/csr_matrix.py', '_coo_to_csr_map'), ('CSCMatrix', 'openmdao/matrices/csc_matrix.py', '_coo_to_csc_map')):
+    for _dup in (False, True):
+        MAP = 'self.%s' % _map
+        FAC = '(1 if subjac.factor is None else subjac.factor)'
+        contract(_file + '::%s._update_from_submat' % _cls, ['C11'],
+                 dict(self=Obj(_cls, **{_map: Arr('T', dtype='int'), '_coo_slices': DictT({('y', 'x'): SliceT('a', 'b')}),
+                                        '_matrix': Obj('spmatrix', data=Arr('nz')), '_has_within_subjac_duplicates': DictT({('y', 'x'): _dup})}),
+                      subjac=Obj('Subjac', key=Const(('y', 'x')), factor=OneOf(None, Real()), _stored=Arr('m')), randgen=None),
+                 requires=['a <= b and b <= T and m == b - a', 'all(0 <= %s[k] and %s[k] < nz for k in range(T))' % (MAP, MAP)] +
+                          ([] if _dup else ['all(all(implies(k1 != k2, %s[a + k1] != %s[a + k2]) for k2 in range(m)) for k1 in range(m))' % (MAP, MAP)]),
+                 ensures=['all(approx(self._matrix.data[j], old(self._matrix.data[j]) + Sum(m, lambda k: ite(%s[a + k] == j, subjac._stored[k] * %s, 0))) for j in range(nz))' % (MAP, FAC)]
+                         if _dup else
+                         ['all(approx(self._matrix.data[%s[a + k]], old(self._matrix.data[%s[a + k]]) + %s * subjac._stored[k]) for k in range(m))' % (MAP, MAP, FAC),
+                          'all(implies(all(%s[a + k] != j for k in range(m)), self._matrix.data[j] == old(self._matrix.data[j])) for j in range(nz))' % MAP],
+                 # frame: the sub-jacobian's stored data is not in `modifies`
+                 modifies=['self._matrix.data'],
+                 assumed={'subjac.get_as_coo_data': Assumed(returns_expr='subjac._stored', note='Subjac.get_as_coo_data may return the stored value array itself (no copy) for rows/cols, diagonal, dense and COO sub-jacobians')},
+                 name=_file + '::%s._update_from_submat[%s]' % (_cls, 'within-subjac duplicates' if _dup else 'duplicate-free slice'),
+                 canaries=[('unit factor applied in place to the data handed out by the sub-jacobian', ('data = data * subjac.factor', 'data *= subjac.factor'), 'frame')] if not _dup else
+                          [('buffered += used although the slice has duplicates', ('np.add.at(self._matrix.data, %s, data)' % ('csr_indices' if _cls == 'CSRMatrix' else 'csc_indices'),
+                                                                                 'self._matrix.data[%s] += data' % ('csr_indices' if _cls == 'CSRMatrix' else 'csc_indices')), 'pre@callee')])
